@@ -136,6 +136,17 @@ func (r *run) converge(live []*sim.Node, want map[uint64]string, phase string, s
 		}
 		return nil, ""
 	}
+	// Every membership change made so far has been acknowledged, hence committed: a member that has applied the
+	// log up to the highest commit index any live member reports now has applied all of them.
+	var target uint64
+	for _, n := range live {
+		n := n
+		r.cl.Guard(3*time.Second, func() {
+			if c := n.In.ZeroGroup.VerifStatus().Commit; c > target {
+				target = c
+			}
+		})
+	}
 	if r.cl.WaitFor(30*time.Second, func() bool { n, _ := check(); return n == nil }) == nil {
 		r.rec.Count("books_checked", int64(len(live)))
 		return true
@@ -159,6 +170,13 @@ func (r *run) converge(live []*sim.Node, want map[uint64]string, phase string, s
 	n2, bad2 := check()
 	if n2 == nil {
 		return true
+	}
+	if a2 := applied(); n2 == n && target > 0 && a2 >= target {
+		// slow or not: it has applied every acknowledged change and still lists something else
+		rp := r.replay()
+		rp["node"], rp["expected"], rp["diag"] = n.Id, fmtBook(want), r.cl.Diag()
+		r.rec.Violation(sym(n, bad2)+":"+phase, fmt.Sprintf("%s: node %d %s: %s although it has applied the membership log up to index %d (every change was acknowledged, hence committed, by index %d)%s", r.desc, n.Id, phase, bad2, a2, target, r.cl.Diag()), rp)
+		return false
 	}
 	if n2 != n || applied() != a0 {
 		r.rec.Inconclusive(fmt.Sprintf("%s: %s: views still moving after 50 s (node %d: %s)", r.desc, phase, n2.Id, bad2))
